@@ -7,13 +7,18 @@ import (
 	"strconv"
 	"strings"
 
+	"github.com/mmcloughlin/addchain"
 	"github.com/mmcloughlin/addchain/acc"
+	"github.com/mmcloughlin/addchain/acc/ast"
 	"verif/harness/c04c16"
 	"verif/harness/lib"
 )
 
 func oracle(c, res string) string {
 	f := strings.Split(c, " ")
+	if f[0] == "cbuild" {
+		return c04c16.CheckConcurrent(c, res, func(_ addchain.Program, s *ast.Chain) string { return c04c16.CheckNames(s) })
+	}
 	p := c04c16.ParseOps(f[1])
 	if !c04c16.Valid(p) {
 		return "" // outside the quantifier; compared with the model only
@@ -102,11 +107,14 @@ func oracle(c, res string) string {
 func main() {
 	lib.Main(lib.Prop{
 		ID:     "C16",
-		Gen:    c04c16.Gen([]string{"build", "names"}, []string{"rebuild"}),
+		Gen:    c04c16.Gen([]string{"build", "names"}, []string{"rebuild"}, 16),
 		Neighbours: c04c16.Neighbours,
 		Run:    c04c16.Run,
 		Oracle: oracle,
 		Nontrivial: func(c, res string) bool {
+			if strings.HasPrefix(c, "cbuild ") {
+				return strings.HasPrefix(res, "ok ")
+			}
 			p := c04c16.ParseOps(strings.Split(c, " ")[1])
 			return strings.HasPrefix(res, "ok ") && len(p) >= 3 && c04c16.Valid(p)
 		},
